@@ -100,6 +100,14 @@ TABLE_33 = [[1, -2, 4], [0, 3, 3], [2, -1, 2]]
 def table(i, seed, shift=0.0):
     """Table i of the alphabet; the seed shifts all values by an exact dyadic offset (ties stay ties).
     Histories use shift=0.25: no entry is zero, so a masked bootstrap never coincides with an unmasked one."""
+    if i == "near":
+        # near-ties: the entries of a row differ by exactly one float32 ulp (after the shift), so the greedy action is
+        # well defined but any perturbation of the values before the arg-max picks another one
+        t = np.asarray([[1, 1], [2, 2], [0.5, 0.5]], dtype=np.float32) + np.float32(0.5 * (seed % 4) + shift)
+        t[0, 1] = np.nextafter(t[0, 1], np.float32(np.inf))
+        t[1, 0] = np.nextafter(t[1, 0], np.float32(np.inf))
+        t[2, 1] = np.nextafter(t[2, 1], np.float32(-np.inf))
+        return t
     t = np.asarray(TABLE_33 if i == "33" else BASE_TABLES[i], dtype=np.float32)
     return t + np.float32(0.5 * (seed % 4) + shift)
 
@@ -203,9 +211,9 @@ def argmaxes(row):
 
 def single_alphabets(tier):
     if tier == "quick":
-        return dict(tables=[0, 1, 2], rs=[-1.0, 0.0, 2.0], terms=[False, True], gammas=[0.0, 0.5, 1.0], lrs=[0.1, 1.0])
+        return dict(tables=[0, 1, 2, "near"], rs=[-1.0, 0.0, 2.0], terms=[False, True], gammas=[0.0, 0.5, 1.0], lrs=[0.1, 1.0])
     return dict(
-        tables=[0, 1, 2, 3, 4, 5, "33"],
+        tables=[0, 1, 2, 3, 4, 5, "33", "near"],
         rs=[-1.0, 0.0, 2.0, 0.75],
         terms=[False, True, 0, 1],
         gammas=[0.0, 0.5, 0.9, 1.0],
